@@ -14,6 +14,62 @@ import gen_engine as G
 PID = "C18"
 
 
+SAFE = {"groups": True, "initial": False, "capacity": False, "nonmetric": False, "maxwait_stop": False, "maxwait_veh": False,
+        "maxdist": False}
+
+
+def nested_checks(chk, tier, seed):
+    """check.SolutionCheck on models with stop groups and user constraints whose estimate is optimistic
+    (the check then executes best moves that fail).  Removal-safe models only: no constraint can be violated by
+    taking a stop out, so the group un-planning findings N1-N4 cannot interfere; histories that went through a
+    rejected group move or a group un-plan before the check are left out (N5, N7)."""
+    rng = random.Random(seed * 1009 + 1818)
+    n = 500 if tier == "quick" else 8000
+    cases = []
+    for i in range(n):
+        m = G.gen_model(rng, "small", dict(SAFE, user=rng.random() < 0.7))
+        ops = G.gen_ops(rng, m, rng.randint(0, 8), "checked_only")[:-1] + ["op q_check %s" % rng.choice(["low", "medium", "high"])]
+        cases.append({"id": str(i), "model": m, "ops": ops})
+    res, st = E.run_cases(cases, "c18n_" + tier, timeout=3000)
+    chk.ob("nested: harness and model runner exit normally", st[0] == 0 and st[2] == 0, (st[1] + st[3])[-300:])
+    used = tainted = failed_moves = 0
+    for r in res:
+        ops = r["case"]["ops"]
+        tg, taint = {}, False
+        for l in r["impl"]:
+            f = l.split()
+            if len(f) >= 3 and f[1] == "target" and f[0].isdigit():
+                tg[int(f[0])] = int(f[2])
+            if len(f) >= 3 and f[1] == "result" and f[0].isdigit():
+                k = int(f[0])
+                op = ops[k - 1].split()[1]
+                grp = tg.get(k, 0) >= 1000
+                if op in ("munplanr", "vunplanr") or (op == "unplanr" and grp) or (op in ("planr", "plancr") and grp and f[2] != "done"):
+                    taint = True
+        if taint:
+            tainted += 1
+            continue
+        used += 1
+        mf = 0
+        for l in r["q_impl"]:
+            f = l.split()
+            if f[3] == "summary":
+                mf = int(f[5])
+            if f[3] in ("error", "internal-error"):
+                chk.violation({"kind": "history", "what": "check returned an error: " + " ".join(f[3:])[:200],
+                               "case": G.case_lines(r["case"]["model"], ops)})
+        failed_moves += 1 if mf else 0
+        if r["diff"]:
+            d = r["diff"]
+            kind = d["impl"].split()[1] if len(d["impl"].split()) > 1 else "?"
+            chk.violation({"kind": "history", "what": "check.SolutionCheck altered the solution (stop groups): %s" % str(d)[:300],
+                           "finding_shape": {"kind": "nested", "oracle": "C18", "op": "q_check", "detail": kind, "moves_failed": mf > 0},
+                           "case": G.case_lines(r["case"]["model"], ops)})
+    chk.ob("nested: solution unchanged by check.SolutionCheck on %d group histories (%d with failing best moves; %d tainted histories left out)"
+           % (used, failed_moves, tainted), not chk.violations)
+    return used
+
+
 def run(tier, seed, replay=None):
     chk = FW.Check(PID, tier, seed)
     if not chk.builds(model=True, harness=True):
@@ -51,11 +107,14 @@ def run(tier, seed, replay=None):
                         chk.violation({"kind": "history", "what": "unit %s reported plannable but its best move does not execute on a copy of the checked solution" % f[4],
                                        "case": G.case_lines(r["case"]["model"], r["case"]["ops"])})
     chk.ob("reported plannable units can be planned; no failed best moves (%d units, %d plannable)" % (nunits, nplannable), not chk.violations)
+    nested = nested_checks(chk, tier, seed)
     chk.ev.cov.update({
+        "nested_check_histories": nested,
         "evaluations": 2 * n, "distinct_nontrivial": nplannable,
         "rule": "generated models x histories of checked plan/unplan operations, check.SolutionCheck at a random verbosity twice per history; non-trivial = reported plannable unit re-planned on a copy",
         "traces_validated_against_impl": n, "samples": [cases[0]["ops"][-3:]],
         "search_description": "snapshot before/after and re-planning of reported units",
     })
-    chk.ev.assume("states with planned nested units (groups, alternates) are not generated yet; the random source of the solution is not observable")
+    chk.ev.assume("nested units: stop groups on models where removing a stop cannot violate a constraint (elsewhere findings N1-N4 make un-planning "
+                  "non-atomic, which the check inherits); alternates are not generated; the random source of the solution is not observable")
     return chk.finish()
